@@ -106,12 +106,10 @@ class GenericSystemRegistry(
 
     @default_system.setter
     def default_system(self, name: str) -> None:
-        if name:
-            if name not in self._systems:
-                raise ValueError("Unknown system %s" % name)
+        if name and name not in self._systems:
+            raise ValueError("Unknown system %s" % name)
 
-            self._base_units_cache = {}
-
+        self._base_units_cache = {}
         self._default_system_name = name
 
     def get_system(self, name: str, create_if_needed: bool = True) -> objects.System:
